@@ -628,13 +628,23 @@ theorem posNode_of_same {s t : Core} (hn : NodesSame s t)
   obtain ⟨m, hm, y, hy, hyf, hyr⟩ := hn n hnm x hx hf
   rw [← hyr]; exact h m hm y hy hyf
 
-/-- the state of the application after its last-but-`i` placeholder allocation is removed (old `relApp`) -/
+/-- the state of the application after one of its placeholder allocations is removed (old `relApp`): a Failing
+    application progresses only when it holds no real allocation either -/
 def phSt (a : CApp) (aph : Res) : String :=
   if isZero (some aph) &&
-     ((a.state == "Completing" && !a.stateTimer) || a.state == "Failing" || a.state == "Resuming" ||
-      (isZero (some a.pending) && isZero (some a.allocated))) then
+     ((a.state == "Completing" && !a.stateTimer) || (a.state == "Failing" && isZero (some a.allocated)) ||
+      a.state == "Resuming" ||
+      (isZero (some a.pending) && isZero (some a.allocated) && a.state != "Failing")) then
     (if a.state == "Failing" then fireState a.state .fail
      else if a.state == "Resuming" then fireState a.state .run
+     else fireState a.state .complete)
+  else a.state
+
+/-- the state of the application after one of its real allocations is removed (old `relApp`), `alloc` the new total:
+    a Failing application has failed once the placeholders are gone as well -/
+def realSt (a : CApp) (alloc : Res) : String :=
+  if isZero (some a.pending) && isZero (some alloc) then
+    (if a.state == "Failing" then (if isZero (some a.allocatedPh) then fireState a.state .fail else a.state)
      else fireState a.state .complete)
   else a.state
 
@@ -643,11 +653,13 @@ theorem relApp_ph (key : String) (i : CItem) (a : CApp) (hph : i.ph = true) :
     (relApp key i a).live = !(terminated (relApp key i a).state) := by
   unfold relApp; rw [hph]; exact ⟨rfl, rfl⟩
 
+/-- the real branch: it, too, takes a terminated application out of the partition -/
 theorem relApp_real (key : String) (i : CItem) (a : CApp) (hph : i.ph = false) :
-    (relApp key i a).state = (if (isZero (some a.pending) && isZero (some (relApp key i a).allocated)) = true
-      then fireState a.state .complete else a.state) ∧
-    (relApp key i a).live = a.live := by
+    (relApp key i a).state = realSt a (relApp key i a).allocated ∧
+    (relApp key i a).live = !(terminated (relApp key i a).state) := by
   unfold relApp; rw [hph]; exact ⟨rfl, rfl⟩
+
+theorem failing_fail : fireState "Failing" .fail = "Failed" := by decide
 
 theorem phSt_props (a : CApp) (aph : Res) (hnt : terminated a.state = false) :
     (phSt a aph = "Completing" →
@@ -657,7 +669,7 @@ theorem phSt_props (a : CApp) (aph : Res) (hnt : terminated a.state = false) :
   unfold phSt
   split
   · rename_i hc
-    simp only [Bool.and_eq_true, Bool.or_eq_true, beq_iff_eq, Bool.not_eq_true'] at hc
+    simp only [Bool.and_eq_true, Bool.or_eq_true, beq_iff_eq, Bool.not_eq_true', bne_iff_ne, ne_eq] at hc
     obtain ⟨hz, hd⟩ := hc
     by_cases hF : a.state = "Failing"
     · have e : (a.state == "Failing") = true := by rw [hF]; rfl
@@ -675,17 +687,96 @@ theorem phSt_props (a : CApp) (aph : Res) (hnt : terminated a.state = false) :
         · intro _
           rcases hd with ((hd | hd) | hd) | hd
           · exact Or.inl hd.1
-          · exact absurd hd hF
+          · exact absurd hd.1 hF
           · exact absurd hd hR
-          · exact Or.inr hd
+          · exact Or.inr hd.1
         · intro h
           exact fire_complete_terminated hnt (by rw [h]; exact terminated_completed)
   · refine ⟨fun h => Or.inl h, ?_, ?_⟩
     · intro h; rw [h, terminated_completed] at hnt; cases hnt
     · intro h; rw [hnt] at h; cases h
 
+/-- the real branch on an application that is not Completing: it never completes; it terminates only as a Failing
+    application without placeholders whose last real allocation goes -/
+theorem realSt_props (a : CApp) (alloc : Res) (hnt : terminated a.state = false) (hne : a.state ≠ "Completing") :
+    (realSt a alloc = "Completing" → isZero (some a.pending) = true ∧ isZero (some alloc) = true) ∧
+    realSt a alloc ≠ "Completed" ∧
+    (terminated (realSt a alloc) = true → a.state = "Failing" ∧ isZero (some a.allocatedPh) = true ∧
+      isZero (some a.pending) = true ∧ isZero (some alloc) = true) := by
+  unfold realSt
+  split
+  · rename_i hc
+    simp only [Bool.and_eq_true] at hc
+    by_cases hF : a.state = "Failing"
+    · have e : (a.state == "Failing") = true := by rw [hF]; rfl
+      rw [if_pos e]
+      split
+      · rename_i hz
+        have hf : fireState a.state .fail = "Failed" := by rw [hF]; exact failing_fail
+        rw [hf]
+        exact ⟨fun _ => hc, by decide, fun _ => ⟨hF, hz, hc⟩⟩
+      · refine ⟨fun _ => hc, ?_, ?_⟩
+        · intro h; rw [h, terminated_completed] at hnt; cases hnt
+        · intro h; rw [hnt] at h; cases h
+    · have e : ¬ (a.state == "Failing") = true := by simpa using hF
+      rw [if_neg e]
+      have hnt' : terminated (fireState a.state .complete) = false := by
+        cases ht : terminated (fireState a.state .complete) with
+        | false => rfl
+        | true => exact absurd (fire_complete_terminated hnt ht) hne
+      refine ⟨fun _ => hc, ?_, ?_⟩
+      · intro h; rw [h, terminated_completed] at hnt'; cases hnt'
+      · intro h; rw [hnt'] at h; cases h
+  · refine ⟨fun h => absurd h hne, ?_, ?_⟩
+    · intro h; rw [h, terminated_completed] at hnt; cases hnt
+    · intro h; rw [hnt] at h; cases h
+
+/-- A Failing application whose last placeholder goes is Failed (and leaves the partition) when it holds no real
+    allocation; with a real allocation left it stays Failing and live. -/
+theorem relApp_failing_ph (key : String) (i : CItem) (a : CApp) (hph : i.ph = true) (hst : a.state = "Failing")
+    (hz : isZero (some (relApp key i a).allocatedPh) = true) :
+    (isZero (some a.allocated) = true → (relApp key i a).state = "Failed" ∧ (relApp key i a).live = false) ∧
+    (isZero (some a.allocated) = false → (relApp key i a).state = "Failing" ∧ (relApp key i a).live = true) := by
+  obtain ⟨e1, e2⟩ := relApp_ph key i a hph
+  refine ⟨?_, ?_⟩ <;> intro hal
+  · have hs : (relApp key i a).state = "Failed" := by
+      rw [e1]; unfold phSt; simp [hz, hst, hal, failing_fail]
+    refine ⟨hs, ?_⟩
+    rw [e2, hs]; decide
+  · have hs : (relApp key i a).state = "Failing" := by
+      rw [e1]; unfold phSt; simp [hst, hal]
+    refine ⟨hs, ?_⟩
+    rw [e2, hs]; decide
+
+/-- … and while placeholders are left nothing happens to it -/
+theorem relApp_failing_ph_left (key : String) (i : CItem) (a : CApp) (hph : i.ph = true) (hst : a.state = "Failing")
+    (hz : isZero (some (relApp key i a).allocatedPh) = false) :
+    (relApp key i a).state = "Failing" ∧ (relApp key i a).live = true := by
+  obtain ⟨e1, e2⟩ := relApp_ph key i a hph
+  have hs : (relApp key i a).state = "Failing" := by
+    rw [e1]; unfold phSt; simp [hz, hst]
+  refine ⟨hs, ?_⟩
+  rw [e2, hs]; decide
+
+/-- The last real allocation of a Failing application (nothing pending) makes it Failed, and not live, when it holds no
+    placeholder; with a placeholder left it stays Failing and live. -/
+theorem relApp_failing_real (key : String) (i : CItem) (a : CApp) (hph : i.ph = false) (hst : a.state = "Failing")
+    (hp : isZero (some a.pending) = true) (hz : isZero (some (relApp key i a).allocated) = true) :
+    (isZero (some a.allocatedPh) = true → (relApp key i a).state = "Failed" ∧ (relApp key i a).live = false) ∧
+    (isZero (some a.allocatedPh) = false → (relApp key i a).state = "Failing" ∧ (relApp key i a).live = true) := by
+  obtain ⟨e1, e2⟩ := relApp_real key i a hph
+  refine ⟨?_, ?_⟩ <;> intro hal
+  · have hs : (relApp key i a).state = "Failed" := by
+      rw [e1]; unfold realSt; simp [hp, hz, hst, hal, failing_fail]
+    refine ⟨hs, ?_⟩
+    rw [e2, hs]; decide
+  · have hs : (relApp key i a).state = "Failing" := by
+      rw [e1]; unfold realSt; simp [hp, hz, hst, hal]
+    refine ⟨hs, ?_⟩
+    rw [e2, hs]; decide
+
 /-- what the life-cycle invariants need to know about the application after `relApp` -/
-theorem relApp_facts (key : String) (i : CItem) (a : CApp) (hl : a.live = true) (hnt : terminated a.state = false)
+theorem relApp_facts (key : String) (i : CItem) (a : CApp) (hnt : terminated a.state = false)
     (hreal : i.ph = false → a.state ≠ "Completing") :
     ((relApp key i a).state = "Completing" → a.state = "Completing" ∨
       (isZero (some (relApp key i a).pending) = true ∧ isZero (some (relApp key i a).allocated) = true)) ∧
@@ -709,28 +800,22 @@ theorem relApp_facts (key : String) (i : CItem) (a : CApp) (hl : a.live = true) 
       rw [e2] at h; simpa using h
   | false =>
     obtain ⟨e1, e2⟩ := relApp_real key i a hph
-    have hne := hreal hph
-    have hnt' : terminated (relApp key i a).state = false := by
-      rw [e1]
-      split
-      · cases ht : terminated (fireState a.state .complete) with
-        | false => rfl
-        | true => exact absurd (fire_complete_terminated hnt ht) hne
-      · exact hnt
-    refine ⟨?_, ?_, ?_, fun _ => hnt'⟩
+    obtain ⟨q1, q2, q3⟩ := realSt_props a (relApp key i a).allocated hnt (hreal hph)
+    refine ⟨?_, ?_, ?_, ?_⟩
     · intro h
-      rw [e1] at h
-      split at h
-      · rename_i hc
-        simp only [Bool.and_eq_true] at hc
-        rw [relApp_pending]
-        exact Or.inr hc
-      · exact Or.inl h
-    · intro h; rw [h, terminated_completed] at hnt'; cases hnt'
+      rw [relApp_pending]
+      exact Or.inr (q1 (e1 ▸ h))
     · intro h
-      rcases h with h | h
-      · rw [e2, hl] at h; cases h
-      · rw [hnt'] at h; cases h
+      exact absurd (e1 ▸ h) q2
+    · intro h
+      have ht : terminated (relApp key i a).state = true := by
+        rcases h with h | h
+        · rw [e2] at h; simpa using h
+        · exact h
+      rw [relApp_allocatedPh, if_neg (by rw [hph]; exact Bool.false_ne_true)]
+      exact (q3 (e1 ▸ ht)).2.1
+    · intro h
+      rw [e2] at h; simpa using h
 
 /-- the items after `relApp`: the old ones, one of them unbound -/
 theorem relApp_mem {key : String} {i : CItem} {a : CApp} {y : CItem} (hy : y ∈ (relApp key i a).items) :
@@ -795,7 +880,7 @@ theorem rel1_life (s : Core) (app key : String) (a : CApp) (i : CItem) (hw : Cor
   | true =>
     obtain ⟨ham, hl, _⟩ := findApp_some hfind
     obtain ⟨hmem, hba', hwa', hpos', hreal⟩ := rel1_setup s app key a i hw hb h hfind hitem hbd
-    obtain ⟨f1, f2, f3, f4⟩ := relApp_facts key i a hl (h.termGone a ham hl) hreal
+    obtain ⟨f1, f2, f3, f4⟩ := relApp_facts key i a (h.termGone a ham hl) hreal
     obtain ⟨z1, z2, _⟩ := AppBooks.none_of_zero hba' hwa' hpos'
     refine { pos := ?_, posNode := posNode_of_same (rel1_nodesSame s app key a i) h.posNode, completingNoReal := ?_,
              noPhOrphan := ?_, completedNoReal := ?_, termGone := ?_ }
@@ -834,7 +919,7 @@ theorem rel1_nopend (s : Core) (app key : String) (a : CApp) (i : CItem) (hw : C
   | true =>
     obtain ⟨ham, hl, _⟩ := findApp_some hfind
     obtain ⟨hmem, hba', hwa', hpos', hreal⟩ := rel1_setup s app key a i hw hb h hfind hitem hbd
-    obtain ⟨f1, f2, _, _⟩ := relApp_facts key i a hl (h.termGone a ham hl) hreal
+    obtain ⟨f1, f2, _, _⟩ := relApp_facts key i a (h.termGone a ham hl) hreal
     obtain ⟨_, _, z3⟩ := AppBooks.none_of_zero hba' hwa' hpos'
     refine ⟨?_, ?_⟩
     · intro b hbm hbl hst j hj
@@ -1000,8 +1085,9 @@ theorem rel2_nopend (s1 : Core) (app key : String) (chain : List String) (hw : C
 
 end LifeA
 
-/-- The old `releaseKey` keeps the life-cycle invariant: no side condition.  (Its real branch does not mark a Completed
-    application dead, but it cannot complete one: a Completing application holds no real allocation.) -/
+/-- The old `releaseKey` keeps the life-cycle invariant: no side condition.  (Its real branch cannot complete an
+    application: a Completing application holds no real allocation.  It can fail one: a Failing application without
+    placeholders whose last real allocation goes is Failed and leaves the partition; it then has no bound placeholder.) -/
 theorem life_releaseKey (s : Core) (app key : String) (hw : CoreWF s) (hb : Books s) (h : LifeInv s) :
     LifeInv (s.releaseKey app key) := by
   cases hfind : s.findApp app with
